@@ -114,9 +114,17 @@ def run(cmd, **kw):
 
 
 def main():
-    want = sys.argv[1:]
+    want = [w for w in sys.argv[1:] if not w.startswith('--')]
+    after = None
+    for w in sys.argv[1:]:
+        if w.startswith('--after='):
+            after = w.split('=', 1)[1]
     rows = []
+    started = after is None
     for name, props, path, old, new in MUTANTS:
+        if not started:
+            started = name == after
+            continue
         if want and not any(w in name for w in want):
             continue
         d = tempfile.mkdtemp(prefix='wcverif-mut-')
@@ -130,12 +138,6 @@ def main():
                 print(name, 'edit failed', s.count(old))
                 continue
             open(fp, 'w').write(s.replace(old, new))
-            r = run(['/venv/bin/python', '-m', 'pytest', '-q', '-p', 'no:cacheprovider', '-x', '-q'], cwd=root, env=dict(os.environ, PYTHONPATH=root), timeout=900)
-            tail = [l for l in r.stdout.splitlines() if 'passed' in l or 'failed' in l][-1:]
-            nfail = 0
-            m = re.search(r'(\d+) failed', ' '.join(tail))
-            if m:
-                nfail = int(m.group(1))
             r2 = run(['/venv/bin/python', '-m', 'pytest', '-q', '-p', 'no:cacheprovider'], cwd=root, env=dict(os.environ, PYTHONPATH=root), timeout=900)
             tail = [l for l in r2.stdout.splitlines() if 'passed' in l or 'failed' in l][-1:]
             m = re.search(r'(\d+) failed', ' '.join(tail))
@@ -150,11 +152,10 @@ def main():
             rows.append((name, props, suite, res))
             print(name, suite, res)
             sys.stdout.flush()
+            with open(os.path.join(HERE, 'sensitivity.md'), 'a') as f:
+                f.write('| %s | %s | %s | %s |\n' % (name, ' '.join(props), suite, ' '.join('%s:%s' % kv for kv in res.items())))
         finally:
             shutil.rmtree(d, ignore_errors=True)
-    with open(os.path.join(HERE, 'sensitivity.md'), 'a') as f:
-        for name, props, suite, res in rows:
-            f.write('| %s | %s | %s | %s |\n' % (name, ' '.join(props), suite, ' '.join('%s:%s' % kv for kv in res.items())))
 
 
 if __name__ == '__main__':
